@@ -54,6 +54,19 @@ impl Monitor for Mon {
         if self.dr.is_none() {
             self.dr = rec.snap_before.as_ref().map(|s| s.data_rate);
         }
+        // Fixed plans: when the channel mask disables channels, whether "a lower data rate exists" depends on
+        // which bandwidth class still has channels (the statement does not say how): count-dependent
+        // predictions are suspended while such a mask is in force.
+        if region.is_fixed() {
+            if let Some(s) = &rec.snap_before {
+                if s.mask.iter().any(|b| *b != 0xFF) {
+                    if !self.suspended {
+                        stats.bump("probe.suspended-under-partial-fixed-mask");
+                    }
+                    self.suspended = true;
+                }
+            }
+        }
         match &rec.op {
             Op::SetAdr(on) => {
                 if *on != self.adr {
@@ -174,6 +187,10 @@ impl Monitor for Mon {
             self.cnt = 0;
             stats.bump("probe.count-restarted-by-rxc");
         }
+        if rec.op.txn().map(|t| t.nb_set_dr_mid.is_some()).unwrap_or(false) {
+            // the application changed the data rate itself between TX and RX1
+            self.dr = Some(rec.dr_after);
+        }
         // the data rate never otherwise changes on its own
         if self.suspended {
             self.dr = Some(rec.dr_after);
@@ -218,7 +235,33 @@ impl Property for C12 {
             Tier::Thorough => 3_000_000,
         }
     }
-    fn generate(&self, seed: u64, run: u64, _tier: Tier, _avoid: &BTreeSet<String>) -> MacCase {
+    fn generate(&self, seed: u64, run: u64, tier: Tier, avoid: &BTreeSet<String>) -> MacCase {
+        // one run in five borrows another property"s generator (same case type), so that this oracle also
+        // judges histories of shapes its own generator does not produce
+        if let Some(c) = super::cross_generate("C12", &["C04", "C05", "C07", "C08", "C09", "C10"], seed, run, tier, avoid) {
+            return c;
+        }
+        self.own_generate(seed, run, tier, avoid)
+    }
+    fn execute(&self, case: &MacCase, want_trace: bool) -> Outcome {
+        let mut mon = Mon { adr: true, cnt: 0, dr: None, owed_ack: false, suspended: false, cur_keys: None, uplinks: 0 };
+        let out = run_case(case, &mut mon, want_trace);
+        Outcome { violation: out.violation, stats: out.stats, trace: out.trace }
+    }
+    fn self_test(&self) -> Result<(), String> {
+        crate::self_test_refs()?;
+        if next_lower(RegionId::IN865, 5) != Some(4) || next_lower(RegionId::US915, 8) != Some(4) || next_lower(RegionId::EU868, 0).is_some() {
+            return Err("next_lower".into());
+        }
+        Ok(())
+    }
+    fn expected_probes(&self, _tier: Tier) -> Vec<&'static str> {
+        vec!["probe.ack-bit-set", "probe.adrackreq-set", "probe.adrackreq-suppressed-at-lowest-dr", "probe.backoff-step-expected", "probe.count-restarted-by-downlink", "probe.adr-toggled"]
+    }
+}
+
+impl C12 {
+    pub fn own_generate(&self, seed: u64, run: u64, _tier: Tier, _avoid: &BTreeSet<String>) -> MacCase {
         let mut r = Rng::new(run_seed(seed, "C12", run));
         let cfg = gen_cfg(&mut r, &CfgProfile { frontends: ALL_FRONTENDS, otaa_pct: 15, boundary_counters_pct: 10, join_bias_pct: 10 });
         let mut cfg = cfg;
@@ -272,20 +315,5 @@ impl Property for C12 {
             ops.push(Op::Send { port: 1 + (r.below(200) as u8), len: *r.pick(&[0u8, 1, 4]), confirmed: r.chance(1, 5), txn: t });
         }
         MacCase { cfg, ops, knob: 0 }
-    }
-    fn execute(&self, case: &MacCase, want_trace: bool) -> Outcome {
-        let mut mon = Mon { adr: true, cnt: 0, dr: None, owed_ack: false, suspended: false, cur_keys: None, uplinks: 0 };
-        let out = run_case(case, &mut mon, want_trace);
-        Outcome { violation: out.violation, stats: out.stats, trace: out.trace }
-    }
-    fn self_test(&self) -> Result<(), String> {
-        crate::self_test_refs()?;
-        if next_lower(RegionId::IN865, 5) != Some(4) || next_lower(RegionId::US915, 8) != Some(4) || next_lower(RegionId::EU868, 0).is_some() {
-            return Err("next_lower".into());
-        }
-        Ok(())
-    }
-    fn expected_probes(&self, _tier: Tier) -> Vec<&'static str> {
-        vec!["probe.ack-bit-set", "probe.adrackreq-set", "probe.adrackreq-suppressed-at-lowest-dr", "probe.backoff-step-expected", "probe.count-restarted-by-downlink", "probe.adr-toggled"]
     }
 }
